@@ -8,7 +8,7 @@ from harness.props.c01 import gen_history
 from harness.props.c04 import f16_condition, commit_detecting_f33
 
 PROPS_FILE = "Props/C05.v"
-MODEL_FILES = ["Model/RTree.v", "Model/TreeRun.v", "Model/Persist.v", "Model/PersistRun.v"]
+MODEL_FILES = ["Model/RTree.v", "Model/TreeRun.v", "Model/Persist.v", "Model/PersistSpec.v", "Model/PersistRun.v"]
 RULE = ("(a) histories on stored containers with cache sweeps / single-node deactivations between calls; (b) object-keyed "
         "containers whose key comparison sweeps the cache (and records every node's state) on EVERY comparison inside an "
         "operation, results compared with an un-swept twin; (c) after every call, also failing ones (bad key, missing key, "
@@ -397,7 +397,55 @@ def run(ctx):
     part_b(ctx, rng, ctx.n(300, 25000))
     part_c(ctx, rng, ctx.n(400, 25000))
     part_d(ctx, rng, ctx.n(300, 20000))
+    model_tie(ctx, rng, ctx.n(50, 1500))
     ctx.traces = ctx.evaluations
+
+
+class _Quiet:
+    """C04's driver reports C04's findings under C04's signatures; here only the model comparison is wanted"""
+    def __init__(self, ctx):
+        self._ctx = ctx
+
+    def oracle_failure(self, *a, **k):
+        pass
+
+    def __getattr__(self, n):
+        return getattr(self._ctx, n)
+
+
+def model_tie(ctx, rng, n):
+    """The tie of C05's theorems (C05_sync_*: unchanged stored nodes equal their records, about Model/Persist.v)
+    to the code, in C05's own run: stored containers driven through a data manager whose cache drops every object
+    after a third of the commits; registered / read-current sets after every call, dump sequences and the
+    reader's view after every commit must be the model's."""
+    from harness import caseutil
+    from harness.props import c04
+    terms, meta = [], []
+    q = _Quiet(ctx)
+    for it in range(n):
+        kind = rng.choice(["BTree", "BTree", "TreeSet"])
+        fn = rng.choice(ALL_FAMS)
+        ml, mi = rng.choice(c04.SIZES)
+        u = rng.choice([8, 20, 40])
+        mode = rng.choice({"O": ["none-int", "str", "int"]}.get(fn[0], [None, "extreme"]))
+        calls = gen_history(rng, kind, u, rng.choice([10, 25, 50]), avoid0=(mode == "none-int"))
+        calls = [c for c in calls if c[0] not in ("keys", "items")] + [("len",)]
+        cuts = {i: "commit" for i in range(len(calls)) if rng.random() < 0.2}
+        cuts[len(calls) - 1] = "commit"
+        order = rng.choice(["lifo", "fifo", "reversed"])
+        for impl in ("C", "Py"):
+            steps, _nt = c04.run_one(q, rng, fn, kind, impl, mode, ml, mi, calls, cuts, order, it)
+            if steps is None:
+                continue
+            vs = "true" if (impl == "C" and fn[1] in "IULQF" and kind == "BTree" and fn != "fs") else "false"
+            terms.append("PC %d %d %s %s [%s]" % (ml, mi, vs, "true" if impl == "C" else "false", ";\n ".join(steps)))
+            meta.append((fn, kind, impl, mode, ml, mi, order, calls))
+    total, bad, errs = caseutil.eval_cases("c05", c04.HDR, "pcase_ok", terms, shard=30, ctype="wpcase")
+    for e in errs:
+        ctx.corr_mismatch("c05 case file", e)
+    for i in bad[:5]:
+        ctx.corr_mismatch("Persist model (registration, records, commit, reader) vs implementation with evicted caches", {"case": meta[i]})
+    ctx.cov["histories_compared_with_the_persistence_model"] = total
 
 
 def replay(ctx, data):
